@@ -237,6 +237,15 @@ Definition run_C17_slices (inp : case_input) : list Z :=
 Definition run_C17_utf8 (inp : case_input) : list Z :=
   let '(b, _, _, _) := inp in enc_opt (utf8c_dec b).
 
+(* (key chars, (nonce_length, mac_length), draw1 ++ draw2, plaintext chars), cipher = toy: two consecutive
+   encrypt calls of ONE instance on the same text; the i-th call consumes the i-th draw *)
+Definition run_C17_seq (inp : case_input) : list Z :=
+  let '(key, (n, m), draws, s) := inp in
+  let cfg := mkCfg key n m in
+  let d1 := firstn (Z.to_nat n) draws in
+  let d2 := skipn (Z.to_nat n) draws in
+  concat (map (fun o => enc_opt o ++ [SEP]) (encrypt_all utf8c toy_enc cfg [(d1, s); (d2, s)])).
+
 (* one entry point for the harness: (kind, input) *)
 Definition run_C17 (ki : Z * case_input) : list Z :=
   let '(k, inp) := ki in
@@ -244,4 +253,5 @@ Definition run_C17 (ki : Z * case_input) : list Z :=
   else if k =? 1 then run_C17_toydec inp
   else if k =? 2 then run_C17_layout inp
   else if k =? 3 then run_C17_slices inp
+  else if k =? 5 then run_C17_seq inp
   else run_C17_utf8 inp.
